@@ -651,6 +651,7 @@ class Inliner:
             reusable = {tg0.id}
         elif mode == "tuple":
             reusable = {t.id for t in st.targets[0].elts}
+        target_names = set(reusable)
         for a_ in list(call.args) + [k.value for k in call.keywords]:
             reusable -= _names(a_)
         if reusable:
@@ -676,6 +677,13 @@ class Inliner:
                 subst[p] = a  # self.x passed through (helpers that rebind it are excluded by `stored`)
             elif p not in stored and _single_early_use(body, p):
                 subst[p] = a  # used once, before anything else of the helper can have an effect: evaluated at the same point
+            elif isinstance(a, ast.Name) and a.id in target_names and sum(
+                    1 for x in list(call.args) + [k.value for k in call.keywords] for n_ in ast.walk(x)
+                    if isinstance(n_, ast.Name) and n_.id == a.id) == 1:
+                # `x = helper(x)`: the variable passed is overwritten by the result, its old value is needed by nobody else - the
+                # helper's parameter can be that variable
+                if a.id != p:
+                    rename[p] = a.id
             elif isinstance(a, ast.Name) and not self._loaded_after(func, st, a.id):
                 # the helper rebinds its parameter, and the caller never reads the variable it passed again: let the copy work on it
                 if a.id != p:
@@ -770,7 +778,8 @@ class Inliner:
                     outl.append(ast.Assign(targets=[ast.Tuple(elts=[ast.Name(id=nm, ctx=ast.Store()) for nm in tnames], ctx=ast.Store())],
                                            value=ast.Name(id=res, ctx=ast.Load())))
                 elif res is not None:
-                    outl.append(ast.Assign(targets=[ast.Name(id=res, ctx=ast.Store())], value=val))
+                    if not (isinstance(val, ast.Name) and val.id == res):
+                        outl.append(ast.Assign(targets=[ast.Name(id=res, ctx=ast.Store())], value=val))
                 elif v is not None and any(isinstance(x, ast.Call) for x in ast.walk(v)):
                     outl.append(ast.Expr(value=v))
                 if thread and isinstance(val, ast.Constant) and nthreaded[0] < 8:
